@@ -5,11 +5,11 @@ package main
 // plus "the parser writes nothing reachable from its arguments".
 
 import (
-	"time"
 	"fmt"
 	"go/token"
 	"sort"
 	"strings"
+	"time"
 
 	"golang.org/x/tools/go/ssa"
 )
